@@ -21,6 +21,71 @@ WS_MIX = ["\xa0\xa0", "\u3000\u2003", "\x1c\x1d\x1e\x1f", " \xa0", "\u2028\u2029
 MARKUP = ["a [b]b[/b]", "total [bold]42[/bold]", "[green]$1[/green]", "[red]x[/red] [blue]yy[/blue] z", "[i]あ[/i]b", "[b]one two three four[/b] five"]
 
 
+# ---- Text specs (deepening 4): a `Text` with EVERY documented constructor option at every documented value, as plain data.
+# Wherever rich accepts "str or Text" (Panel / Rule / Table / Columns title, caption, column header / footer) a description may
+# hold a dict {"s": …, option: value, …} instead of a str; `mk_text` builds the Text.  `None` is a documented value of
+# justify / overflow / no_wrap / tab_size ("Number of spaces per tab, or None to use console.tab_size").
+TEXT_CONTENT = ["a\tb", "\tlead", "two\ttabs\there", "a\nb\tc", "x\x00y\x08z\x1b[1m", "\r\n\t", "あ\tい", "plain", ""]
+TEXT_OPTS = {
+    "justify": [None] + JUST,
+    "overflow": [None] + OVER + ["ignore"],
+    "no_wrap": [None, True, False],
+    "end": ["", "\n", " ", "ab"],
+    "tab_size": [None, 1, 2, 4, 8],
+    "style": ["", "bold", "red on blue"],
+    "style_obj": ["bold", "none"],  # a `Style` object (Style.parse of the value) instead of a str
+}
+
+
+def mk_text(spec):
+    """a str stays a str; a dict becomes `Text(s, **options)`"""
+    if not isinstance(spec, dict):
+        return spec
+    from rich.style import Style
+    from rich.text import Text
+
+    kw = {k: spec[k] for k in ("justify", "overflow", "no_wrap", "style", "end", "tab_size") if k in spec}
+    if "style_obj" in spec:
+        kw["style"] = Style.parse(spec["style_obj"])
+    return Text(spec["s"], **kw)
+
+
+def gen_text_spec(rng):
+    """a random Text spec: each option present with probability 1/2, at any documented value"""
+    o = {"s": rng.choice(TEXT_CONTENT + TEXTS)}
+    for k, vals in TEXT_OPTS.items():
+        if rng.random() < (0.6 if k == "tab_size" else 0.4):
+            o[k] = rng.choice(vals)
+    if "style_obj" in o:
+        o.pop("style", None)
+    return o
+
+
+def maybe_text(rng, s, p=0.3):
+    """with probability p a Text spec in place of the str `s` (None stays None)"""
+    return gen_text_spec(rng) if s is not None and rng.random() < p else s
+
+
+def text_specs(desc):
+    """every Text spec (dict) in title-like positions and every `text` leaf's options, with its position name"""
+    kind, o, kids = desc
+    if kind == "text":
+        yield "leaf", o
+    for k in ("title", "caption"):
+        if isinstance(o.get(k), dict):
+            yield kind + "." + k, o[k]
+    if kind == "table":
+        for c in o["cols"]:
+            for k in ("header", "footer"):
+                if isinstance(c.get(k), dict):
+                    yield "table." + k, c[k]
+    for k in kids:
+        yield from text_specs(k)
+    if kind == "tree":
+        for n in _tree_nodes(o["root"]):
+            yield from text_specs(n["label"])
+
+
 class Timeout(BaseException):
     pass
 
@@ -70,6 +135,8 @@ def gen_leaf(rng):
         return ("mtext", o, [])
     if k < 0.30:
         return ("str", {"s": rng.choice(TEXTS)}, [])
+    if k < 0.40:
+        return ("text", gen_text_spec(rng), [])
     if k < 0.62:
         o = {"s": rng.choice(TEXTS)}
         if rng.random() < 0.4:
@@ -86,7 +153,7 @@ def gen_leaf(rng):
             o["tab_size"] = rng.choice([1, 2, 4, 8])
         return ("text", o, [])
     if k < 0.74:
-        o = {"title": rng.choice(["", "t", "Title あ", "a long rule title " * 3]), "align": rng.choice(ALIGN)}
+        o = {"title": maybe_text(rng, rng.choice(["", "t", "Title あ", "a long rule title " * 3]), 0.4), "align": rng.choice(ALIGN)}
         if rng.random() < 0.4:
             o["characters"] = rng.choice(["─", "-=", "あ", "=", "à"])
         return ("rule", o, [])
@@ -112,6 +179,8 @@ def gen_tree(rng, depth):
             o["title"] = rng.choice(["t", "Panel title", "あ", "", "x" * 40])
             o["title_align"] = rng.choice(ALIGN)
             o["title_markup"] = rng.random() < 0.4
+            if rng.random() < 0.4:
+                o["title"], o["title_markup"] = gen_text_spec(rng), False
         if rng.random() < 0.2:
             o["fit"] = True
         return ("panel", o, [sub()])
@@ -135,7 +204,7 @@ def gen_tree(rng, depth):
             "column_first": rng.random() < 0.4,
             "right_to_left": rng.random() < 0.3,
             "align": rng.choice([None] + ALIGN),
-            "title": rng.choice([None, "cols"]),
+            "title": maybe_text(rng, rng.choice([None, "cols"]), 0.5),
         }
         return ("columns", o, [sub() if rng.random() < 0.5 else gen_leaf(rng) for _ in range(n)])
     if k < 0.80:
@@ -147,7 +216,7 @@ def gen_tree(rng, depth):
     ncol = rng.randint(0, 4)
     cols = []
     for _ in range(ncol):
-        c = {"header": rng.choice(TEXTS), "footer": rng.choice(["", "f", "foot er"]), "justify": rng.choice(JUST), "overflow": rng.choice(OVER), "no_wrap": rng.random() < 0.25}
+        c = {"header": maybe_text(rng, rng.choice(TEXTS), 0.2), "footer": maybe_text(rng, rng.choice(["", "f", "foot er"]), 0.2), "justify": rng.choice(JUST), "overflow": rng.choice(OVER), "no_wrap": rng.random() < 0.25}
         r = rng.random()
         if r < 0.25:
             c["width"] = rng.randint(1, 30)
@@ -186,8 +255,8 @@ def gen_tree(rng, depth):
         "show_edge": rng.random() < 0.8,
         "show_lines": rng.random() < 0.3,
         "leading": rng.choice([0, 0, 1, 2]),
-        "title": rng.choice([None, "T", "a table title that is long"]),
-        "caption": rng.choice([None, "cap"]),
+        "title": maybe_text(rng, rng.choice([None, "T", "a table title that is long"]), 0.4),
+        "caption": maybe_text(rng, rng.choice([None, "cap"]), 0.4),
     }
     return ("table", o, kids)
 
@@ -214,8 +283,7 @@ def build(desc):
     if kind == "str":
         return o["s"]
     if kind == "text":
-        kw = {k: o[k] for k in ("justify", "overflow", "no_wrap", "style", "end", "tab_size") if k in o}
-        return Text(o["s"], **kw)
+        return mk_text(o)
     if kind == "mtext":
         kw = {k: o[k] for k in ("justify", "overflow") if o.get(k) is not None}
         t = Text.from_markup(o["s"], **kw)
@@ -223,7 +291,7 @@ def build(desc):
             t.no_wrap = o["no_wrap"]
         return t
     if kind == "rule":
-        return Rule(o["title"], align=o["align"], **({"characters": o["characters"]} if "characters" in o else {}))
+        return Rule(mk_text(o["title"]), align=o["align"], **({"characters": o["characters"]} if "characters" in o else {}))
     if kind == "bar":
         return Bar(o["size"], o["begin"], o["end"], width=o["width"])
     if kind == "pbar":
@@ -231,8 +299,8 @@ def build(desc):
     if kind == "pretty":
         return Pretty(o["obj"])
     if kind == "panel":
-        kw = dict(title=o.get("title"), title_align=o.get("title_align", "center"), padding=o["padding"], width=o["width"])
-        if o.get("title_markup") and kw["title"]:
+        kw = dict(title=mk_text(o.get("title")), title_align=o.get("title_align", "center"), padding=o["padding"], width=o["width"])
+        if o.get("title_markup") and kw["title"] and isinstance(kw["title"], str):
             kw["title"] = Text.from_markup("[red]%s[/red]" % kw["title"])
         if o.get("fit"):
             return Panel.fit(ch[0], getattr(_box, o["box"]), **kw)
@@ -248,7 +316,7 @@ def build(desc):
     if kind == "group":
         return RenderGroup(*ch, fit=o["fit"])
     if kind == "columns":
-        return Columns(ch, padding=o["padding"], width=o["width"], expand=o["expand"], equal=o["equal"], column_first=o["column_first"], right_to_left=o["right_to_left"], align=o["align"], title=o["title"])
+        return Columns(ch, padding=o["padding"], width=o["width"], expand=o["expand"], equal=o["equal"], column_first=o["column_first"], right_to_left=o["right_to_left"], align=o["align"], title=mk_text(o["title"]))
     if kind == "tree":
         def mk(parent, n):
             t = Tree(build(n["label"]), expanded=n["expanded"]) if parent is None else parent.add(build(n["label"]), expanded=n["expanded"])
@@ -259,13 +327,13 @@ def build(desc):
     if kind == "table":
         if o["grid"]:
             t = Table.grid(padding=o["padding"], collapse_padding=o["collapse_padding"], pad_edge=o["pad_edge"], expand=o["expand"])
-            t.width, t.min_width, t.title, t.caption = o["width"], o["min_width"], o["title"], o["caption"]
+            t.width, t.min_width, t.title, t.caption = o["width"], o["min_width"], mk_text(o["title"]), mk_text(o["caption"])
         else:
-            t = Table(title=o["title"], caption=o["caption"], width=o["width"], min_width=o["min_width"], box=None if o["box"] is None else getattr(_box, o["box"]),
+            t = Table(title=mk_text(o["title"]), caption=mk_text(o["caption"]), width=o["width"], min_width=o["min_width"], box=None if o["box"] is None else getattr(_box, o["box"]),
                       padding=o["padding"], collapse_padding=o["collapse_padding"], pad_edge=o["pad_edge"], expand=o["expand"], show_header=o["show_header"],
                       show_footer=o["show_footer"], show_edge=o["show_edge"], show_lines=o["show_lines"], leading=o["leading"])
         for c in o["cols"]:
-            t.add_column(c["header"], c["footer"], justify=c["justify"], overflow=c["overflow"], no_wrap=c["no_wrap"], width=c.get("width"), ratio=c.get("ratio"), min_width=c.get("min_width"), max_width=c.get("max_width"))
+            t.add_column(mk_text(c["header"]), mk_text(c["footer"]), justify=c["justify"], overflow=c["overflow"], no_wrap=c["no_wrap"], width=c.get("width"), ratio=c.get("ratio"), min_width=c.get("min_width"), max_width=c.get("max_width"))
         for row in o["rows"]:
             t.add_row(*[None if i is None else ch[i] for i in row])
         return t
@@ -512,7 +580,36 @@ def repeat_trees():
         yield (t[0], t[1], [("mtext", {"s": MARKUP[1], "justify": None}, [])])
 
 
-def small_trees():
+def _text_positions(spec):
+    """the Text `spec` in every position where rich takes "str or Text", and as a leaf wherever a leaf is measured"""
+    yield from _measuring(("text", spec, []))
+    for align in ALIGN:
+        yield ("rule", {"title": spec, "align": align}, [])
+        yield ("panel", {"box": "ROUNDED", "expand": True, "padding": (0, 1), "width": None, "title": spec, "title_align": align}, [LEAF])
+    yield ("panel", {"box": "ASCII", "expand": False, "padding": 0, "width": None, "title": spec, "title_align": "center", "fit": True}, [LEAF])
+    yield _table({}, TABLE_COLS[1], title=spec, caption=spec)
+    yield _table({}, [{"header": spec, "footer": spec}], show_footer=True)
+    yield _table({"expand": True, "box": None}, [{"header": spec, "footer": spec, "ratio": 1, "no_wrap": True}], show_footer=True)
+    yield ("columns", {"padding": (0, 1), "width": None, "expand": False, "equal": False, "column_first": False, "right_to_left": False, "align": None, "title": spec}, [LEAF, LEAF])
+
+
+def text_option_trees(quick=False):
+    """deepening 4: every documented `Text` option at every documented value (one option varied at a time over the
+    defaults, then every option at None / its emptiest value together), on contents with tabs, line feeds and control
+    characters, in every position (`_text_positions`).  No randomness."""
+    for s in TEXT_CONTENT:
+        full = not quick or s in (TEXT_CONTENT[0], TEXT_CONTENT[3])  # quick tier: the per-option sweep on two contents only
+        specs = [{"s": s}]
+        for k, vals in TEXT_OPTS.items() if full else ():
+            specs += [{"s": s, k: v} for v in vals]
+        specs.append({"s": s, "justify": None, "overflow": None, "no_wrap": None, "end": "", "tab_size": None, "style": ""})
+        specs.append({"s": s, "justify": "full", "overflow": "ignore", "no_wrap": True, "end": "ab", "tab_size": 1, "style_obj": "bold"})
+        for spec in specs:
+            yield from _text_positions(spec)
+
+
+def small_trees(quick=False):
+    yield from text_option_trees(quick)
     yield from level1()
     yield from level2()
     yield from blank_trees()
@@ -536,3 +633,4 @@ def option_widths(desc):
         for n in _tree_nodes(o["root"]):
             out |= option_widths(n["label"])
     return out
+
